@@ -74,6 +74,7 @@ def generate(prog, props, log):
         meta["assumptions"] |= v.assumptions
         meta["models"] |= v.models_used
         meta["bounded"] |= v.bounded
+        meta.setdefault("summarised", set()).update(getattr(v, "summarised", set()))
         meta["contracts_used"] |= set(prog.short(x) for x in v.called_contracts)
         seen = {}
         for ob in obs:
@@ -197,6 +198,7 @@ def run(pid, tier, repo="/repo", out_evidence=True, quiet=False):
             "canary_obligations": [{"obligation": j["name"], "failed_as_expected": True} for j in canary_failed] +
                                   [{"obligation": j["name"], "failed_as_expected": False} for j in jobs if j.get("canary_passed")],
             "bounded": sorted(meta["bounded"]) + props.get("bounded", []),
+            "loops_summarised_by_schema": sorted(meta.get("summarised", [])),
             "explanation": props.get("explanation", ""),
             "vacuity_checks": sum(1 for j in jobs if j.get("kind") == "vacuity"),
             "integers": "exact-width bit-vectors (wrap-around modelled, nothing treated as mathematical)",
